@@ -18,6 +18,7 @@ import BR.Model.Arm
 import BR.Model.IK
 import BR.Model.Urdf
 import BR.Model.Dyn
+import BR.Model.ArmStatics
 import BR.Model.SP
 import BR.Model.SPCarry
 import BR.Model.Disp
@@ -393,6 +394,12 @@ def handle (fn : String) (a : List Float) : Option (List Float) :=
     let (g, r) ← v3 r
     let (F, _) ← v6 r
     some (inverseDynamics Ms Gs Ss th dth ddth g F)
+  | "dyn.linkmass", nf :: r => do     -- n W(6) J columns (n×6) link weight wrenches (n×6) -> torques of staticForcesWithLinkMasses
+    let n := nf.toUInt64.toNat
+    let (W, r) ← v6 r
+    let (Js, r) ← many v6 n r
+    let (ws, _) ← many v6 n r
+    some (BR.ArmStatics.linkMassTorques W Js ws)
   | _, _ => none
 
 end DynIO
